@@ -45,6 +45,11 @@ POOLS = {
         "H": ({"H": 1}, 0), "H+": ({"H": 1}, 1), "H2": ({"H": 2}, 0), "pH2": ({"H": 2}, 0), "oH2": ({"H": 2}, 0), "H3+": ({"H": 3}, 1), "pH3+": ({"H": 3}, 1), "e-": ({}, -1),
         "P": ({"P": 1}, 0), "P+": ({"P": 1}, 1), "PH": ({"P": 1, "H": 1}, 0), "PH2": ({"P": 1, "H": 2}, 0), "PH3+": ({"P": 1, "H": 3}, 1), "PH+": ({"P": 1, "H": 1}, 1),
     },
+    # isotope symbols that begin with a digit (user element list), as gas and as ice next to the main isotopologue
+    "isotope": {
+        "C": ({"C": 1}, 0), "13C": ({"13C": 1}, 0), "O": ({"O": 1}, 0), "CO": ({"C": 1, "O": 1}, 0), "13CO": ({"13C": 1, "O": 1}, 0), "#CO": ({"C": 1, "O": 1}, 0), "#13CO": ({"13C": 1, "O": 1}, 0),
+        "N": ({"N": 1}, 0), "15N": ({"15N": 1}, 0), "N2": ({"N": 2}, 0), "15N2": ({"15N": 2}, 0), "#N2": ({"N": 2}, 0), "#15N2": ({"15N": 2}, 0), "13C+": ({"13C": 1}, 1), "C+": ({"C": 1}, 1),
+    },
     # formulas that mention an element symbol in several places (composition computed by hand)
     "repeat": {
         "H": ({"H": 1}, 0), "C": ({"C": 1}, 0), "O": ({"O": 1}, 0), "N": ({"N": 1}, 0), "H2": ({"H": 2}, 0), "OH": ({"O": 1, "H": 1}, 0),
@@ -187,7 +192,13 @@ def cases(thorough, seed):
             reactions.append(rx(r, list(p)))
         # two pools also carry inert species (declared as extra species, part of no reaction): their derivative is zero
         inert = {"HCO": ["He", "Ne+"], "ice": ["#N2"]}.get(pn, [])
-        c = Case(f"BAL-{pn}", {"reactions": reactions, "network": {"required_species": inert} if inert else {}}, tags={"balanced"})
+        netkw = {"required_species": inert} if inert else {}
+        if pn == "isotope":
+            netkw = {"elements": ["e", "H", "C", "13C", "N", "15N", "O"], "pseudo_elements": ["CR", "PHOTON", "CRPHOT"]}
+        spec_ = {"reactions": reactions, "network": netkw}
+        if pn == "isotope":
+            spec_["pre"] = [{"op": "exec", "code": "from naunet.chemistrydata import update_binding_energy\nupdate_binding_energy({'#13CO': 1150.0, '#15N2': 790.0})\n"}]
+        c = Case(f"BAL-{pn}", spec_, tags={"balanced"})
         c.composition = {c.canon(n): v for n, v in POOLS[pn].items()}  # independent of naunet's name parser
         c.composition.update({c.canon(n): v for n, v in {"He": ({"He": 1}, 0), "Ne+": ({"Ne": 1}, 1), "#N2": ({"N": 2}, 0)}.items() if n in inert})
         out.append(c)
